@@ -20,12 +20,13 @@ PROP = {
         "run() is only called with event ids >= 1 (id 0 is documented as 'any event, only for addRoute/addEvent')",
         "handlers return -1 or an existing state / 0; at most one handler per (state, event); nested machines can always start (valid initial state); one sub-machine object per state",
         "the call sequence is applied to the top machine only; re-entrant calls are made by a machine's callbacks on that same machine",
+        "definition calls (newState/addRoute/addEvent/setInitState/setSubStateMachine) are issued in generated order, interleaved, also between two lives (stop(); define; start()), but only while the top machine is stopped; a nested machine is attached only once it can start and keeps a valid initial state",
         "left free: guard evaluations of routes registered after the route taken, lastState() between stop/restart and the next transition, nextState() outside enter/exit/route actions, the Event given to enter/exit actions of a nested machine started/stopped by its parent",
     ],
 }
 META = {
     "design_ref": "DESIGN.md section 4, C16",
     "technique": "model-based stateful PBT (rapidcheck) + coverage-guided fuzzing (libFuzzer) of generated machine trees and call histories against an independent reference interpreter of the statement, plus interpreter-free trace invariants, under ASan/UBSan",
-    "level_text": "Generated hierarchies of up to 7 StateMachine objects (depth <= 3; 2-5 states each, optional user-defined state 0, up to 8 routes per state with any-event wildcards and table-driven guards, per-state specific and default handlers, explicit/implicit/invalid initial state, optional actions and state-changed callback) are driven by generated start/run/stop/restart histories; in a quarter of the cases callbacks call start/stop/restart/run/newState/addRoute on their own machine. After every call the trace of guard evaluations, handler calls, exit/route/enter actions, notifications and rejected re-entrant calls, the return value and currentState/isRunning/isTerminated/lastState of every machine of the tree are compared with an independent reference interpreter; enter/exit balance at every nesting level when the top machine is stopped, exit->route action->enter order, and 'rejected re-entrant calls change nothing' are checked directly on the real trace. Exploration only: no counter-example among N generated histories.",
+    "level_text": "Generated hierarchies of up to 7 StateMachine objects, defined incrementally in generated ORDER (states, routes, handlers, setInitState and setSubStateMachine interleaved; routes to state 0 before the user's newState(0); handler targets declared later; addRoute to a not yet existing state must fail; definitions extended between two lives of the same objects) (depth <= 3; 2-5 states each, optional user-defined state 0, up to 8 routes per state with any-event wildcards and table-driven guards, per-state specific and default handlers, explicit/implicit/invalid initial state, optional actions and state-changed callback) are driven by generated start/run/stop/restart histories; in a quarter of the cases callbacks call start/stop/restart/run/newState/addRoute on their own machine. After every call the trace of guard evaluations, handler calls, exit/route/enter actions, notifications and rejected re-entrant calls, the return value and currentState/isRunning/isTerminated/lastState of every machine of the tree are compared with an independent reference interpreter; enter/exit balance at every nesting level when the top machine is stopped, exit->route action->enter order, and 'rejected re-entrant calls change nothing' are checked directly on the real trace. Exploration only: no counter-example among N generated histories.",
     "level_note": "Trusted: the reference interpreter in harness/C16/hsm.cpp (written from the statement, header comments and unit tests), the table-driven guard/handler functions shared by both sides, ASan/UBSan. Not compared: extra guard evaluations after the matching route, lastState() after stop/restart until the next transition, nextState() outside actions, the Event passed to a nested machine's enter/exit on parent-driven start/stop. Events are 1..5, state ids 0..5, depth <= 3, <= 80 calls per history.",
 }
